@@ -5,6 +5,7 @@ package symx
 // certificate verification and the gRPC transport are trusted libraries.
 
 import (
+	"encoding/pem"
 	"encoding/hex"
 	"fmt"
 	"go/types"
@@ -20,10 +21,19 @@ type recCreds struct {
 	minVersion   int64
 	clientCAs    *recPool
 	certificates int
+	ownName      string // common name of the own certificate (model encoding LEAF:<name>)
 	weakening    []string // tls.Config settings that can weaken client authentication
 }
 
+type recListener struct{ addr string }
+
+type recConn struct {
+	target string
+	creds  *recCreds
+}
+
 type recServer struct {
+	addr  string // listen address once serving
 	unary value            // the server's unary interceptor (executed by vsym.Invoke)
 	impl  map[string]iface // registered service implementations by service name
 	creds        *recCreds
@@ -72,7 +82,22 @@ func addGRPCModel(P *Program) {
 		if i.fault("tls.X509KeyPair") {
 			return tuple{zero(ct), i.mkError("tls: failed to find any PEM data in certificate input")}
 		}
-		return tuple{zero(ct), iface{}}
+		c := zero(ct).(structure)
+		// the certificate chain of the key pair (DER of every CERTIFICATE block of the file)
+		var chain []value
+		rest := goBytesOrNil(args[0])
+		for {
+			var blk *pem.Block
+			blk, rest = pem.Decode(rest)
+			if blk == nil {
+				break
+			}
+			if blk.Type == "CERTIFICATE" {
+				chain = append(chain, value(fromBytes(blk.Bytes)))
+			}
+		}
+		c[fieldIndex(ct, "Certificate")] = chain
+		return tuple{c, iface{}}
 	}
 	// certificates of the model: the DER bytes are ASCII, "CA:<name>" for an authority and "LEAF:<name>"
 	// for an end-entity certificate; anything else does not parse
@@ -152,6 +177,21 @@ func addGRPCModel(P *Program) {
 		}
 		if certs, ok := structField(cfg, ct, "Certificates").([]value); ok {
 			c.certificates = len(certs)
+			if len(certs) > 0 {
+				if cs, ok := certs[0].(structure); ok {
+					for _, f := range cs {
+						if chain, ok := f.([]value); ok && len(chain) > 0 {
+							if der, ok := chain[0].([]value); ok && !containsSym(der) {
+								txt := string(goBytes(der, "own certificate"))
+								if k := strings.Index(txt, ":"); k >= 0 {
+									c.ownName = txt[k+1:]
+								}
+							}
+							break
+						}
+					}
+				}
+			}
 		}
 		// settings that can let a peer in without a certificate verified against ClientCAs
 		st := ct.Underlying().(*types.Struct)
@@ -290,12 +330,87 @@ func addGRPCModel(P *Program) {
 		}
 		r := i.grec()
 		r.listens = append(r.listens, goString(args[0], "net.Listen")+"/"+goString(args[1], "net.Listen"))
-		return tuple{iface{t: noopType, v: structure{}}, iface{}}
+		return tuple{iface{t: noopType, v: nativeHandle{&recListener{addr: goString(args[1], "net.Listen")}}}, iface{}}
 	}
 	h["(*google.golang.org/grpc.Server).Serve"] = func(i *interpreter, fr *frame, fn *ssa.Function, args []value) value {
 		s := handleOf(args[0]).(*recServer)
 		s.served++
+		if itf, ok := args[1].(iface); ok {
+			if nh, ok := itf.v.(nativeHandle); ok {
+				if l, ok := nh.v.(*recListener); ok {
+					s.addr = l.addr
+				}
+			}
+		}
 		return iface{}
+	}
+	// ---- github.com/jackc/puddle (the sender's connection pool): one resource per pool, built by the
+	// pool's constructor on first use and handed out to every Acquire ----
+	const pd = "github.com/jackc/puddle"
+	type modelPool struct {
+		constructor, destructor value
+		res                     value // constructed value (any)
+		built                   bool
+	}
+	h[pd+".NewPool"] = func(i *interpreter, fr *frame, fn *ssa.Function, args []value) value {
+		return newHandle(&modelPool{constructor: args[0], destructor: args[1]})
+	}
+	h["(*"+pd+".Pool).Acquire"] = func(i *interpreter, fr *frame, fn *ssa.Function, args []value) value {
+		p := handleOf(args[0]).(*modelPool)
+		if !p.built {
+			r := call(i, fr, 0, p.constructor, []value{args[1]}).(tuple)
+			if e, ok := r[1].(iface); ok && e.t != nil {
+				return tuple{(*value)(nil), r[1]}
+			}
+			p.res, p.built = r[0], true
+		}
+		return tuple{newHandle(p), iface{}}
+	}
+	h["(*"+pd+".Resource).Value"] = func(i *interpreter, fr *frame, fn *ssa.Function, args []value) value {
+		return handleOf(args[0]).(*modelPool).res
+	}
+	h["(*"+pd+".Resource).Release"] = func(i *interpreter, fr *frame, fn *ssa.Function, args []value) value { return nil }
+	h["(*"+pd+".Resource).Destroy"] = func(i *interpreter, fr *frame, fn *ssa.Function, args []value) value {
+		handleOf(args[0]).(*modelPool).built = false
+		return nil
+	}
+	h["(*"+pd+".Pool).Close"] = func(i *interpreter, fr *frame, fn *ssa.Function, args []value) value { return nil }
+	// ---- client side: connections are a loop-back to the model's servers ----
+	h["google.golang.org/grpc.WithTransportCredentials"] = func(i *interpreter, fr *frame, fn *ssa.Function, args []value) value {
+		o := &recOption{kind: "dialcreds"}
+		if itf, ok := args[0].(iface); ok {
+			if nh, ok := itf.v.(nativeHandle); ok {
+				o.creds, _ = nh.v.(*recCreds)
+			}
+		}
+		return opt(o)
+	}
+	newConn := func(i *interpreter, target value, opts value) value {
+		c := &recConn{target: goString(target, "grpc target")}
+		if os, ok := opts.([]value); ok {
+			for _, a := range os {
+				if itf, ok := a.(iface); ok {
+					if nh, ok := itf.v.(nativeHandle); ok {
+						if o, ok := nh.v.(*recOption); ok && o.kind == "dialcreds" {
+							c.creds = o.creds
+						}
+					}
+				}
+			}
+		}
+		return tuple{newHandle(c), iface{}}
+	}
+	h["google.golang.org/grpc.NewClient"] = func(i *interpreter, fr *frame, fn *ssa.Function, args []value) value {
+		return newConn(i, args[0], args[1])
+	}
+	h["google.golang.org/grpc.Dial"] = h["google.golang.org/grpc.NewClient"]
+	h["google.golang.org/grpc.DialContext"] = func(i *interpreter, fr *frame, fn *ssa.Function, args []value) value {
+		return newConn(i, args[1], args[2])
+	}
+	h["(*google.golang.org/grpc.ClientConn).Close"] = func(i *interpreter, fr *frame, fn *ssa.Function, args []value) value { return iface{} }
+	h["(*google.golang.org/grpc.ClientConn).Invoke"] = func(i *interpreter, fr *frame, fn *ssa.Function, args []value) value {
+		c := handleOf(args[0]).(*recConn)
+		return i.clientInvoke(c, goString(args[2], "grpc method"), args[3], args[4])
 	}
 	h["(*google.golang.org/grpc.Server).GracefulStop"] = func(i *interpreter, fr *frame, fn *ssa.Function, args []value) value { return nil }
 	h["(*google.golang.org/grpc.Server).Stop"] = h["(*google.golang.org/grpc.Server).GracefulStop"]
@@ -422,14 +537,29 @@ func isNilFunc(v value) bool {
 func (i *interpreter) invoke(fullMethod string, ctx, req value) value {
 	r := i.grec()
 	var s *recServer
-	for _, x := range r.servers {
-		if x.served > 0 {
-			s = x
+	// "8881/v1.Signer/Sign" addresses the server on that port; otherwise the first serving server
+	if k := strings.Index(fullMethod, "/"); k > 0 {
+		port := fullMethod[:k]
+		fullMethod = fullMethod[k:]
+		for _, x := range r.servers {
+			if x.served > 0 && portOf(x.addr) == port {
+				s = x
+			}
+		}
+	} else {
+		for _, x := range r.servers {
+			if x.served > 0 && s == nil {
+				s = x
+			}
 		}
 	}
 	if s == nil {
 		return tuple{iface{}, i.mkError("transport: no server is serving")}
 	}
+	return i.invokeOn(s, fullMethod, ctx, req)
+}
+
+func (i *interpreter) invokeOn(s *recServer, fullMethod string, ctx, req value) value {
 	parts := strings.Split(strings.TrimPrefix(fullMethod, "/"), "/")
 	if len(parts) != 2 {
 		return tuple{iface{}, i.mkError("unimplemented: malformed method name")}
@@ -471,4 +601,95 @@ func (i *interpreter) invoke(fullMethod string, ctx, req value) value {
 		return call(i, nil, 0, s.unary, []value{ctx, req, info, handler})
 	}
 	return call(i, nil, 0, handler, []value{ctx, req})
+}
+
+func goBytesOrNil(v value) []byte {
+	if s, ok := v.([]value); ok && s == nil {
+		return nil
+	}
+	return goBytes(v, "bytes")
+}
+
+func portOf(addr string) string {
+	if k := strings.LastIndex(addr, ":"); k >= 0 {
+		return addr[k+1:]
+	}
+	return addr
+}
+
+// clientInvoke: a unary call on a model connection: the request is handed to the model server that
+// listens on the target's port, with the context the transport would build there (the peer address
+// and the caller's verified certificate), and the reply is copied back.
+func (i *interpreter) clientInvoke(c *recConn, method string, req, reply value) value {
+	var s *recServer
+	for _, x := range i.grec().servers {
+		if x.served > 0 && x.addr != "" && portOf(x.addr) == portOf(c.target) {
+			s = x
+		}
+	}
+	if s == nil {
+		return i.mkError("rpc error: code = Unavailable desc = connection error: no server listens at " + c.target)
+	}
+	name := ""
+	if c.creds != nil {
+		name = c.creds.ownName
+	}
+	ctx := i.transportContext(name, []byte{10, 0, 0, 77})
+	res := i.invokeOn(s, method, ctx, req).(tuple)
+	if e, ok := res[1].(iface); ok && e.t != nil {
+		return res[1]
+	}
+	// copy the reply message
+	out, ok1 := reply.(iface)
+	in, ok2 := res[0].(iface)
+	if ok1 && ok2 {
+		dst, okd := out.v.(*value)
+		src, oks := in.v.(*value)
+		if okd && oks && dst != nil && src != nil && in.t != nil {
+			mt := mustDeref(in.t)
+			store(mt, dst, load(mt, src))
+		}
+	}
+	return iface{}
+}
+
+// transportContext builds context.Background() + peer.NewContext(peer.Peer{Addr: TCP ip, AuthInfo: TLS state
+// with one verified peer certificate of the given common name}).
+func (i *interpreter) transportContext(cn string, ip []byte) value {
+	typ := func(pkg, name string) types.Type {
+		p := i.prog.ImportedPackage(pkg)
+		if p == nil || p.Type(name) == nil {
+			panic(unsupported{"model transport: " + pkg + "." + name + " is not part of the program"})
+		}
+		return p.Type(name).Object().Type()
+	}
+	certT := typ("crypto/x509", "Certificate")
+	cert := zero(certT).(structure)
+	st := certT.Underlying().(*types.Struct)
+	for k := 0; k < st.NumFields(); k++ {
+		if st.Field(k).Name() == "Subject" {
+			cert[k].(structure)[fieldIndex(st.Field(k).Type(), "CommonName")] = cn
+		}
+	}
+	certCell := value(cert)
+	stateT := typ("crypto/tls", "ConnectionState")
+	state := zero(stateT).(structure)
+	state[fieldIndex(stateT, "HandshakeComplete")] = true
+	state[fieldIndex(stateT, "PeerCertificates")] = []value{&certCell}
+	state[fieldIndex(stateT, "VerifiedChains")] = []value{value([]value{&certCell})}
+	infoT := typ("google.golang.org/grpc/credentials", "TLSInfo")
+	info := zero(infoT).(structure)
+	info[fieldIndex(infoT, "State")] = state
+	addrT := typ("net", "TCPAddr")
+	addr := zero(addrT).(structure)
+	addr[fieldIndex(addrT, "IP")] = fromBytes(ip)
+	addr[fieldIndex(addrT, "Port")] = 40000
+	addrCell := value(addr)
+	peerT := typ("google.golang.org/grpc/peer", "Peer")
+	pr := zero(peerT).(structure)
+	pr[fieldIndex(peerT, "Addr")] = iface{t: types.NewPointer(addrT), v: &addrCell}
+	pr[fieldIndex(peerT, "AuthInfo")] = iface{t: infoT, v: info}
+	prCell := value(pr)
+	bg := call(i, nil, 0, i.prog.ImportedPackage("context").Func("Background"), nil)
+	return call(i, nil, 0, i.prog.ImportedPackage("google.golang.org/grpc/peer").Func("NewContext"), []value{bg, &prCell})
 }
